@@ -454,4 +454,52 @@ example : ¬ SY.Quiescent (SY.step demoS0 (.mmuSend demoReq)) ∧
   revert this
   decide
 
+/-! ## a driver cache flush and a TLB shootdown exclude each other (finding `C19-cp-flush-lost-in-shootdown`, repaired)
+
+Both count their cache acknowledgements in `numCacheACK`, and `processCacheFlushRsp` tells them apart by
+`shootDownInProcess` only. -/
+
+/-- **while a shootdown is in process `processFlushReq` accepts nothing**: the `FlushReq` stays at the head of the
+    driver port, no cache is asked, no counter moves -/
+theorem flush_waits_for_shootdown (s : Cp) (h : s.shoot = true) : Cp.hFlush s = (s, false) := by
+  unfold Cp.hFlush
+  split
+  · rfl
+  · split
+    · split
+      · rfl
+      · simp [h]
+    · rfl
+
+/-- **while the caches owe acknowledgements (flush or restart) `processShootdownCommand` accepts nothing** -/
+theorem shootdown_waits_for_cache_acks (s : Cp) (id : Nat) (rest : List Cmd) (hd : s.drvIn = .shoot id :: rest)
+    (h : 0 < s.numCache) : Cp.hCtrl s = (s, false) := by
+  unfold Cp.hCtrl
+  split
+  · rfl
+  · simp only [hd]
+    split
+    · rfl
+    · simp [h]
+
+/-- a command processor with 4 caches in which shootdown 0 has been accepted (the compute unit is being flushed) and
+    the driver's `FlushReq` 7 arrives -/
+def overlapCp : Cp :=
+  { capIn := 8, capDrv := 8, capRdma := 8, capCU := 8, capAT := 8, capCache := 8, capTLB := 8, capPMC := 8,
+    shoot := true, curShoot := some 0, numCU := 1, drvIn := [.flush 7] }
+
+def fourAcks (s : Cp) : Cp :=
+  (Cp.rCache (Cp.rCache (Cp.rCache (Cp.rCache { s with cacheIn := [⟨.flush, 0, 0⟩, ⟨.flush, 1, 0⟩, ⟨.flush, 2, 0⟩, ⟨.flush, 3, 0⟩] }).1).1).1).1
+
+/-- **before the repair** the flush was accepted during the shootdown (4 cache flushes, `currFlushRequest` = 7), and its
+    own 4 acknowledgements were taken for the shootdown's cache reset: `currFlushRequest` cleared, the TLB flush sent
+    although compute unit, address translator and caches of the shootdown had not been flushed, and NO answer to the
+    driver — the flush was lost. The repaired `processFlushReq` leaves the request in the port. -/
+theorem flush_lost_in_shootdown_before_fix :
+    (Cp.hFlushOld overlapCp).2 = true ∧ (Cp.hFlushOld overlapCp).1.numCache = 4 ∧ (Cp.hFlushOld overlapCp).1.curFlush = some 7 ∧
+    (fourAcks (Cp.hFlushOld overlapCp).1).curFlush = none ∧ (fourAcks (Cp.hFlushOld overlapCp).1).drvOut = [] ∧
+    (fourAcks (Cp.hFlushOld overlapCp).1).tlbOut = [⟨.flush, 0, 0⟩] ∧ (fourAcks (Cp.hFlushOld overlapCp).1).numCU = 1 ∧
+    Cp.hFlush overlapCp = (overlapCp, false) := by
+  refine ⟨by decide, by decide, by decide, by decide, by decide, by decide, by decide, flush_waits_for_shootdown _ rfl⟩
+
 end C19
